@@ -20,7 +20,7 @@ import json
 
 from core import Obl, UnitResult, log, VERIF, REPO
 
-KANI_DIR = os.path.join(VERIF, "kani")
+KANI_DIR = os.environ.get("VERIF_KANI_DIR") or os.path.join(VERIF, "kani")
 
 FEATURE_SETS = {
     "default": "",
